@@ -139,6 +139,151 @@ fn gen(tier: &str, seed: u64, out: &mut dyn FnMut(String)) {
         out(format!("chain {} cycle_take:{}", centred(s), n + 1025));
         out(format!("chain {} resize:2,{n}|reshape:{}|resize:{}", centred(s), 2 * n, show_list(s)));
     }
+
+    // ================================================================== robustness streams, part 2
+    let spell_in = |p: usize, rank: usize, neg: bool| -> isize { if neg { p as isize - rank as isize } else { p as isize } };
+    // ---- (10) expand_dims with THREE or more axes: every 3-subset of the result's positions in every order (4 and 5 positions:
+    //      sampled subsets and orders), mixed spellings; alone, and followed by the squeeze of exactly those positions (again in an
+    //      unsorted order and mixed spelling), which must give the array back
+    let exp_shapes: Vec<Vec<usize>> = if thorough { vec![vec![3], vec![2, 3], vec![1, 2], vec![2, 1, 3], vec![0, 2], vec![2, 2, 2, 2], vec![1], vec![5, 1], vec![4, 3, 2], vec![17, 16]] }
+        else { vec![vec![3], vec![2, 3], vec![1, 2], vec![2, 1, 3], vec![0, 2], vec![2, 2, 2, 2]] };
+    for s in &exp_shapes {
+        let (a, nd) = (centred(s), s.len());
+        for k in 3..=5usize {
+            let r = nd + k;
+            let mut subsets: Vec<Vec<usize>> = boxes(&vec![r; k]).into_iter().filter(|c| c.windows(2).all(|w| w[0] < w[1])).collect();
+            if k > 3 { let keep = if thorough { 30 } else { 10 }; let mut pick = vec![]; for _ in 0..keep { pick.push(subsets[rng.below(subsets.len())].clone()); } subsets = pick; }
+            for sub in &subsets {
+                let perms: Vec<Vec<usize>> = if k == 3 { permutations(3) } else { let mut v: Vec<Vec<usize>> = (0..(if thorough { 8 } else { 4 })).map(|_| rng.perm(k)).collect(); v.push((0..k).rev().collect()); v };
+                for p in perms {
+                    let mask = rng.below(1 << k);
+                    let ex: Vec<isize> = p.iter().enumerate().map(|(i, &j)| spell_in(sub[j], r, (mask >> i) & 1 == 1)).collect();
+                    let q = rng.perm(k); let mask2 = rng.below(1 << k);
+                    let sq: Vec<isize> = q.iter().enumerate().map(|(i, &j)| spell_in(sub[j], r, (mask2 >> i) & 1 == 1)).collect();
+                    out(format!("chain {a} expand:{}", show_list(&ex)));
+                    out(format!("chain {a} expand:{}|squeeze:{}", show_list(&ex), show_list(&sq)));
+                }
+            }
+            // refused lists: a position beyond the result's rank, a repeated position (in two spellings)
+            let r_i = r as isize;
+            out(format!("chain {a} expand:{}", show_list(&[(r_i), 0, 1].iter().chain(vec![2isize; k - 3].iter()).copied().collect::<Vec<_>>())));
+            out(format!("chain {a} expand:2,{},0{}", 2 - r_i, ",1".repeat(k - 3)));
+            out(format!("chain {a} expand:{},1,0{}", r_i + 1, ",3".repeat(k - 3)));
+            out(format!("chain {a} ravel"));
+        }
+    }
+    // ---- (10) squeeze with 3..5 axes in unsorted order and mixed spellings on shapes rich in unit axes (+ a non-unit axis among them: refused)
+    for s in [vec![1usize, 2, 1, 1, 3, 1], vec![1, 1, 1], vec![1, 1, 2, 1, 1], vec![2, 1, 1, 1], vec![1, 1, 1, 1, 1, 1, 2], vec![1, 0, 1, 1]] {
+        let (a, nd) = (centred(&s), s.len());
+        let units: Vec<usize> = (0..nd).filter(|&k| s[k] == 1).collect();
+        for k in 3..=units.len().min(5) {
+            for _ in 0..(if thorough { 40 } else { 12 }) {
+                let p = rng.perm(units.len()); let mask = rng.below(1 << k);
+                let ax: Vec<isize> = p[..k].iter().enumerate().map(|(i, &j)| spell_in(units[j], nd, (mask >> i) & 1 == 1)).collect();
+                out(format!("chain {a} squeeze:{}", show_list(&ax)));
+                out(format!("chain {a} squeeze:{}|expand:{}", show_list(&ax), show_list(&{ let mut v: Vec<isize> = p[..k].iter().map(|&j| units[j] as isize).collect(); v.reverse(); v })));
+            }
+            if let Some(non) = (0..nd).find(|&k| s[k] != 1) { out(format!("chain {a} squeeze:{},{},{}", units[units.len() - 1], non, units[0])); }
+            out(format!("chain {a} squeeze:{},{},{}", units[1], units[0] as isize - nd as isize, units[0]));
+        }
+    }
+    // ---- (10) Array::create with ndmin 0..=9 (and 12, 16) on ranks 0..=5 and on zero-length shapes
+    for s in [vec![], vec![6usize], vec![2, 3], vec![1, 2, 3], vec![2, 1, 3, 1], vec![1, 1, 2, 3, 1], vec![0], vec![2, 0], vec![17, 16], vec![2, 2, 2, 2, 2, 2]] {
+        let n: usize = s.iter().product();
+        let els = show_list(&(0..n as i64).map(|t| t - 2).collect::<Vec<_>>());
+        for nd in ["none", "0", "1", "2", "3", "4", "5", "6", "7", "8", "9", "12", "16"] { out(format!("create {els} {} {nd}", show_list(&s))); }
+    }
+    // ---- (10) ranks 6..8
+    for (s, t) in [(vec![2usize, 3, 2, 2], vec![2usize, 1, 3, 2, 1, 2, 1, 1]), (vec![24], vec![1, 2, 1, 3, 1, 4, 1]), (vec![2, 2, 2, 2, 2, 2], vec![4, 1, 4, 1, 4, 1, 1, 1]), (vec![3, 5, 7], vec![1, 1, 3, 1, 5, 1, 7, 1])] {
+        let a = centred(&s);
+        out(format!("chain {a} reshape:{}", show_list(&t)));
+        out(format!("chain {a} reshape:{}|squeeze:none|ravel|reshape:{}", show_list(&t), show_list(&s)));
+        out(format!("chain {a} reshape:{}|squeeze:{}|reshape:{}", show_list(&t), show_list(&(0..t.len()).rev().filter(|&k| t[k] == 1).map(|k| k as isize - if k % 2 == 0 { t.len() as isize } else { 0 }).collect::<Vec<_>>()), show_list(&s)));
+        out(format!("chain {a} expand:0,2,4,6,1|squeeze:none|reshape:{}", show_list(&s)));
+        for k in 0..=4 { out(format!("chain {a} reshape:{}|atleast:{k}", show_list(&t))); }
+        out(format!("create {a} {} 8", show_list(&t))); out(format!("create {a} {} 9", show_list(&t)));
+    }
+    // ---- (8) exact lengths: every axis length 1..=300
+    for l in 1..=300usize {
+        out(format!("chain {} reshape:{l},2|reshape:2,{l}", centred(&[2, l])));
+        out(format!("chain {} resize:2,{}", centred(&[l]), l + 1));
+        if thorough || l % 2 == 1 { out(format!("chain {} cycle_take:{}", centred(&[3, l]), 2 * l + 1)); out(format!("chain {} expand:1|squeeze:-2|ravel", centred(&[l, 3]))); }
+    }
+    // ---- (8) axis arguments and target lengths that survive a narrowing cast to u8 / u16 / u32 as legal ones: refused
+    for s in [vec![3usize], vec![2, 3], vec![1, 2, 1], vec![1, 1]] {
+        let (a, nd, n) = (tag(&s), s.len(), s.iter().product::<usize>());
+        for c in 0..=nd { for big in narrowing_images(c) {
+            out(format!("chain {a} expand:{big}")); out(format!("chain {a} expand:0,{big}")); out(format!("chain {a} expand:{}", -(big as isize) - 1));
+            out(format!("chain {a} squeeze:{big}")); out(format!("chain {a} squeeze:{}", -(big as isize) - 1)); out(format!("chain {a} squeeze:none"));
+        } }
+        for big in narrowing_images(n) { out(format!("chain {a} reshape:{big}")); out(format!("chain {a} reshape:1,{big}")); out(format!("chain {a} ravel")); }
+    }
+    // ---- (6) hidden state: two chains back to back on a FRESH thread, A B A and then (another fresh thread) B A B (`aba`): the
+    //      shape pairs that collide under the weak polynomial hashes (multipliers 31, 33, 37, 131, 257), pairs of equal count,
+    //      a refused call directly followed by a valid one.  For a third of ALL chain lines the previous line is also re-executed.
+    let mut pairs = collision_shape_pairs();
+    pairs.extend(vec![(vec![2, 6], vec![3, 4]), (vec![4, 3], vec![3, 4]), (vec![1, 12], vec![12, 1]), (vec![2, 3, 4], vec![4, 3, 2]), (vec![2, 3], vec![2, 259]), (vec![3, 2], vec![259, 2]), (vec![12], vec![268]), (vec![7], vec![38])]);
+    // the same shape with permuted values (a cache keyed by a fingerprint of the values)
+    for s in [vec![2usize, 3], vec![12], vec![3, 1, 4], vec![2, 2, 2, 2]] {
+        let n: usize = s.iter().product();
+        let rev = format!("{}:{}", show_list(&s), show_list(&(0..n as i64).rev().collect::<Vec<_>>()));
+        for st in ["ravel".to_string(), format!("resize:{}", 2 * n + 1), format!("reshape:{n}"), "expand:0,2,1|squeeze:none".to_string(), format!("cycle_take:{}", n + 3), "atleast:3".to_string()] {
+            out(format!("aba {} {st} {rev} {st}", tag(&s)));
+        }
+    }
+    for (pi, (sa, sb)) in pairs.iter().enumerate() {
+        let (a, b) = (centred(sa), centred(sb));
+        let (na, nb): (usize, usize) = (sa.iter().product(), sb.iter().product());
+        let rev = |s: &Vec<usize>| { let mut r = s.clone(); r.reverse(); show_list(&r) };
+        let variants: Vec<(String, String)> = vec![
+            ("ravel".into(), "ravel".into()),
+            (format!("reshape:{}", rev(sa)), format!("reshape:{}", rev(sb))),
+            (format!("resize:{}", show_list(sb)), format!("resize:{}", show_list(sa))),
+            ("expand:1|squeeze:1".into(), "expand:1|squeeze:1".into()),
+            ("atleast:3".into(), "atleast:3".into()),
+            ("squeeze:none".into(), "squeeze:none".into()),
+            (format!("reshape:{}", na + 1), "ravel".into()),
+            (format!("squeeze:{}", sa.len()), format!("resize:{},2", nb)),
+            ("expand:0,-1,2".into(), "expand:0,-1,2".into()),
+            (format!("cycle_take:{}", nb), format!("cycle_take:{}", na)),
+        ];
+        for (vi, (x, y)) in variants.iter().enumerate() {
+            if !thorough && vi != pi % variants.len() && vi != (pi / 3 + 2) % variants.len() { continue; }
+            out(format!("aba {a} {x} {b} {y}"));
+        }
+    }
+    // ---- (7) huge targets and sources (16 384 .. 140 000 elements; bulk / block paths above 2^14, 2^15, 2^16 elements).
+    //      resize / cycle_take from SMALL sources and reshape / ravel / expand / squeeze / atleast of huge arrays go through the model
+    //      (linear there); resize / cycle_take FROM huge sources are judged by the native reference (`hchain`).
+    let src_lens = [1usize, 2, 3, 5, 7, 9, 10, 12, 31, 100, 255, 257, 1000, 1030];
+    let tgt: Vec<Vec<usize>> = vec![vec![300, 300], vec![65537], vec![2, 70000], vec![70000, 2], vec![131073], vec![257, 256], vec![65536], vec![256, 256], vec![140000], vec![66000], vec![5, 4, 10, 10, 10], vec![3, 30000]];
+    for (li, &l) in src_lens.iter().enumerate() {
+        let per = if thorough { 6 } else { 3 };
+        for q in 0..per {
+            let t = &tgt[(li * per + q * 5) % tgt.len()];
+            let src: Vec<usize> = if l % 2 == 0 && l > 2 && q % 2 == 1 { vec![2, l / 2] } else { vec![l] };
+            out(format!("chain {} resize:{}", centred(&src), show_list(t)));
+        }
+        out(format!("chain {} cycle_take:{}", centred(&[l]), [65537usize, 70001, 131073, 16385][li % 4]));
+    }
+    let big_src: Vec<Vec<usize>> = vec![vec![4100], vec![16385], vec![33000], vec![70000], vec![130, 130], vec![2, 70000], vec![300, 300]];
+    let big_tgt: Vec<Vec<usize>> = vec![vec![300, 300], vec![70001], vec![2, 70001], vec![140001], vec![65537], vec![7], vec![100, 100], vec![299, 300], vec![3, 50000], vec![131073]];
+    for (bi, s) in big_src.iter().enumerate() {
+        let per = if thorough { 7 } else { 3 };
+        for q in 0..per { out(format!("hchain {} resize:{}", centred(s), show_list(&big_tgt[(bi * 3 + q * 7) % big_tgt.len()]))); }
+        out(format!("hchain {} cycle_take:{}", centred(s), [65537usize, 140000, 5, 16385 * 3 + 1][bi % 4]));
+        out(format!("hchain {} resize:{}|ravel|resize:{}", centred(s), show_list(&big_tgt[bi % 4]), show_list(s)));
+    }
+    for (hi, s) in huge_shapes().iter().enumerate() {
+        let (a, n, nd) = (centred(s), s.iter().product::<usize>(), s.len());
+        out(format!("chain {a} ravel|reshape:{}", show_list(s)));
+        let f = factorizations(n, 2 + hi % 3); let t = rng.pick(&f);
+        out(format!("chain {a} reshape:{}|reshape:{}", show_list(t), show_list(s)));
+        out(format!("chain {a} expand:{},0,{}|squeeze:none", nd as isize + 2, -2));
+        out(format!("chain {a} expand:-1|squeeze:-1"));
+        if thorough { out(format!("chain {a} atleast:3")); out(format!("chain {a} squeeze:none")); out(format!("chain {a} reshape:{}", n + 1)); out(format!("chain {a} ravel|expand:1,0|atleast:2")); }
+    }
+    out("audit".into());
 }
 
 // ------------------------------------------------------------------------------------------------ executor
@@ -249,26 +394,142 @@ macro_rules! every_type {
     };
 }
 
+// ------------------------------------------------------------------------------------------------ native reference
+
+/// harness-native reference for the four steps whose meaning is a one-line formula: resize (`out[i] = in[i mod len]`, then the target
+/// shape), cycle_take (the same, flat), reshape (same elements, the count must fit), ravel.  `None` = the chain has another step.
+fn native_chain(shape: &[usize], tags: &[i64], steps: &[Step]) -> Option<Result<(Vec<usize>, Vec<i64>), ()>> {
+    let mut cur = (shape.to_vec(), tags.to_vec());
+    let cycle = |e: &[i64], n: usize| -> Vec<i64> { if e.is_empty() { vec![] } else { (0..n).map(|i| e[i % e.len()]).collect() } };
+    for st in steps {
+        cur = match st {
+            Step::Ravel => (vec![cur.1.len()], cur.1),
+            Step::Reshape(t) => { if t.iter().product::<usize>() != cur.1.len() { return Some(Err(())); } (t.clone(), cur.1) }
+            Step::Resize(t) => { let e = cycle(&cur.1, t.iter().product()); if t.iter().product::<usize>() != e.len() { return Some(Err(())); } (t.clone(), e) }
+            Step::CycleTake(n) => { let e = cycle(&cur.1, *n); (vec![e.len()], e) }
+            _ => return None,
+        };
+    }
+    Some(Ok(cur))
+}
+fn native_text(r: &Result<(Vec<usize>, Vec<i64>), ()>) -> String { match r { Ok((s, e)) => format!("ok {}:{}", show_list(s), show_list(e)), Err(()) => "err".to_string() } }
+static ORACLE_VALIDATIONS: std::sync::atomic::AtomicUsize = std::sync::atomic::AtomicUsize::new(0);
+static NATIVE_ONLY: std::sync::atomic::AtomicUsize = std::sync::atomic::AtomicUsize::new(0);
+
+// ------------------------------------------------------------------------------------------------ executor
+
+fn parse_chain(text: &str) -> Option<Vec<Step>> {
+    let mut steps: Vec<Step> = vec![];
+    if text != "-" { for s in text.split('|') { if s.split_once(':').map_or(s, |x| x.0).is_empty() { return None; } steps.push(Step::parse(s)?); } }
+    Some(steps)
+}
+
+/// what the real crate does with a chain: the text of the run through the Result receiver; a difference of the plain-receiver
+/// twin after any step, or of another element type, is put in front (and then fails the comparison).
+/// `all_types` = all nine images, otherwise u8 / f64(-0.0) / String.
+fn observe(shape: &[usize], tags: &[i64], steps: &[Step], step_text: &str, all_types: bool) -> String {
+    let a: Array<i64> = Array::new(tags.to_vec(), shape.to_vec()).expect("harness: array literal");
+    let canon = run(&a, steps, true);
+    let obs = text(&canon);
+    // plain-receiver twin, compared after every step (a compensating pair of steps must not hide a difference)
+    let mut div: Option<String> = None;
+    for k in 1..=steps.len() {
+        let (p, c) = (text(&run(&a, &steps[..k], false)), if k == steps.len() { obs.clone() } else { text(&run(&a, &steps[..k], true)) });
+        if p != c { div = Some(format!("RECEIVER-DIVERGENCE after step {k} (`{}`): plain receiver gives `{}`, Ok(array) receiver `{}`", step_text.split('|').nth(k - 1).unwrap_or(""), truncate(&p, 300), truncate(&c, 300))); break; }
+    }
+    let div = div.or_else(|| if all_types { every_type!(image, shape, tags, steps, &canon) } else {
+        None::<String>.or_else(|| image("u8", shape, tags, steps, &canon, tag_u8, |x: &u8, y: &u8| x == y))
+            .or_else(|| image("f64 (tag 0 = -0.0)", shape, tags, steps, &canon, tag_f64z, |x: &f64, y: &f64| x.to_bits() == y.to_bits()))
+            .or_else(|| image("String", shape, tags, steps, &canon, |t: i64| t.to_string(), |x: &String, y: &String| x == y)) });
+    match div { Some(d) => format!("{d}; i64 run: {}", truncate(&obs, 300)), None => obs }
+}
+thread_local! {
+    /// A-B-A across case lines: the previous chain and its answer
+    static PREV: std::cell::RefCell<Option<(String, Vec<usize>, Vec<i64>, Vec<Step>, String)>> = const { std::cell::RefCell::new(None) };
+    static LINE_NO: std::cell::Cell<usize> = const { std::cell::Cell::new(0) };
+}
+fn mismatch(observed: String, detail: String) -> Option<Verdict> { Some(Verdict::Mismatch { observed, detail }) }
+fn first_difference(obs: &str, want: &str) -> String {
+    let at = obs.bytes().zip(want.bytes()).position(|(x, y)| x != y).unwrap_or(obs.len().min(want.len()));
+    let lo = at.saturating_sub(40);
+    format!("differs from the expected answer at byte {at}: real `…{}`, expected `…{}`", truncate(obs.get(lo..).unwrap_or(""), 120), truncate(want.get(lo..).unwrap_or(""), 120))
+}
+
 fn exec(op: &str, args: &[&str], expected: &str) -> Option<Verdict> {
     match op {
         "chain" => {
             if args.len() != 2 { return None; }
             let (shape, tags) = parse_arr_raw(args[0]);
+            let steps = parse_chain(args[1])?;
+            // the answer compared with the model first: the whole chain through the Result receiver (as before)
             let a = parse_arr_i64(args[0]);
-            let mut steps: Vec<Step> = vec![];
-            if args[1] != "-" { for s in args[1].split('|') { if s.split_once(':').map_or(s, |x| x.0).is_empty() { return None; } steps.push(Step::parse(s)?); } }
-            // the answer compared with the model: the whole chain through the Result receiver (as before)
-            let canon = run(&a, &steps, true);
-            let obs = text(&canon);
-            if let Verdict::Mismatch { observed, detail } = compare_default(obs.clone(), expected) { return Some(Verdict::Mismatch { observed, detail }); }
-            // plain-receiver twin, compared after every step (a compensating pair of steps must not hide a difference)
-            let mut div: Option<String> = None;
-            for k in 1..=steps.len() {
-                let (p, c) = (text(&run(&a, &steps[..k], false)), if k == steps.len() { obs.clone() } else { text(&run(&a, &steps[..k], true)) });
-                if p != c { div = Some(format!("RECEIVER-DIVERGENCE after step {k} (`{}`): plain receiver gives `{}`, Ok(array) receiver `{}`", args[1].split('|').nth(k - 1).unwrap_or(""), truncate(&p, 300), truncate(&c, 300))); break; }
+            let first = text(&run(&a, &steps, true));
+            if let Verdict::Mismatch { observed, detail } = compare_default(first.clone(), expected) { PREV.with(|p| *p.borrow_mut() = None); return Some(Verdict::Mismatch { observed, detail }); }
+            // the native reference (resize / cycle_take / reshape / ravel chains) is validated against the model's answer
+            if let Some(nat) = native_chain(&shape, &tags, &steps) {
+                let ok = match class_of(expected) { "ok" => native_text(&nat) == expected, "err" => nat.is_err(), _ => true };
+                if !ok { return mismatch(format!("ORACLE-DIVERGENCE native reference `{}`", truncate(&native_text(&nat), 300)), format!("the harness-native reference disagrees with the model, which says `{}`", truncate(expected, 300))); }
+                ORACLE_VALIDATIONS.fetch_add(1, std::sync::atomic::Ordering::Relaxed);
             }
-            let div = div.or_else(|| every_type!(image, &shape, &tags, &steps, &canon));
-            Some(match div { Some(d) => compare_default(format!("{d}; i64 run: {}", truncate(&obs, 300)), expected), None => compare_default(obs, expected) })
+            let n = tags.len();
+            let v = compare_default(observe(&shape, &tags, &steps, args[1], n <= 20000 && expected.len() < 200_000), expected);
+            if let Verdict::Mismatch { .. } = v { return Some(v); }
+            // A-B-A across case lines: for a third of the lines the previous chain is executed again and must repeat its answer
+            let no = LINE_NO.with(|c| { c.set(c.get() + 1); c.get() });
+            let prev = PREV.with(|p| p.borrow_mut().take());
+            if n <= 3000 && expected.len() < 40_000 && no % 3 != 0 { PREV.with(|p| *p.borrow_mut() = Some((format!("{} {}", args[0], args[1]), shape.clone(), tags.clone(), steps.clone(), first.clone()))); }
+            if let Some((pl, ps, pt, pst, pans)) = prev {
+                if no % 3 == 0 {
+                    let pa: Array<i64> = Array::new(pt.clone(), ps.clone()).expect("harness: array literal");
+                    let again = text(&run(&pa, &pst, true));
+                    if again != pans { return mismatch(format!("STATE-DIVERGENCE re-run of the previous case: {}", truncate(&again, 400)), format!("A-B-A: the previous case `chain {}` executed again after this case answers differently; first `{}`", truncate(&pl, 200), truncate(&pans, 400))); }
+                }
+            }
+            Some(v)
+        }
+        // hchain ARR steps: resize / cycle_take from a huge source, judged by the native reference alone
+        "hchain" => {
+            if args.len() != 2 { return None; }
+            if expected != "ok native" { return Some(compare_default("harness: hchain expects the driver to answer `ok native`".into(), expected)); }
+            let (shape, tags) = parse_arr_raw(args[0]);
+            let steps = parse_chain(args[1])?;
+            let want = native_text(&native_chain(&shape, &tags, &steps)?);
+            NATIVE_ONLY.fetch_add(1, std::sync::atomic::Ordering::Relaxed);
+            let obs = observe(&shape, &tags, &steps, args[1], false);
+            if obs == want { return Some(Verdict::Match(format!("{} ({} bytes, equal to the native reference)", truncate(&obs, 60), obs.len()))); }
+            if class_of(&obs) == "err" && want == "err" { return Some(Verdict::Match(obs)); }
+            let d = first_difference(&obs, &want);
+            mismatch(truncate(&obs, 400), d)
+        }
+        // aba ARRA stepsA ARRB stepsB: on a FRESH thread A, B, A; on another fresh thread B, A, B — every run judged by the model's answers
+        "aba" => {
+            if args.len() != 4 { return None; }
+            let (ea, eb) = expected.split_once(" ; ")?;
+            let ma = (parse_arr_raw(args[0]), parse_chain(args[1])?, args[1].to_string(), ea.to_string());
+            let mb = (parse_arr_raw(args[2]), parse_chain(args[3])?, args[3].to_string(), eb.to_string());
+            for first_a in [true, false] {
+                let seq = if first_a { vec![("first", ma.clone()), ("second", mb.clone()), ("first", ma.clone())] } else { vec![("second", mb.clone()), ("first", ma.clone()), ("second", mb.clone())] };
+                let res = std::thread::Builder::new().stack_size(64 << 20).spawn(move || {
+                    for (pos, (which, (raw, steps, st_text, want))) in seq.iter().enumerate() {
+                        let obs = observe(&raw.0, &raw.1, steps, st_text, false);
+                        let same = obs == *want || (class_of(&obs) == "err" && class_of(want) == "err");
+                        if !same { return Some((format!("run {} of the thread ({which} chain `{st_text}` on shape {}): {}", pos + 1, show_list(&raw.0), truncate(&obs, 500)), format!("model says `{}`", truncate(want, 500)))); }
+                    }
+                    None
+                }).ok()?.join();
+                match res {
+                    Ok(None) => {}
+                    Ok(Some((o, d))) => return mismatch(o, format!("back-to-back on a fresh thread in the order {}: {d}", if first_a { "first, second, first" } else { "second, first, second" })),
+                    Err(_) => return None,
+                }
+            }
+            Some(Verdict::Match(truncate(expected, 400)))
+        }
+        "audit" => {
+            let (v, h) = (ORACLE_VALIDATIONS.load(std::sync::atomic::Ordering::Relaxed), NATIVE_ONLY.load(std::sync::atomic::Ordering::Relaxed));
+            let t = format!("ok audit: native resize/cycle_take/reshape/ravel reference validated against the model on {v} chains of this run; {h} huge chains judged by it alone");
+            if expected != "ok audit" { return Some(compare_default(t, expected)); }
+            if h > 0 && v < 1000 { mismatch(t, "the native reference was used without having been validated against the model on at least 1000 smaller cases".into()) } else { Some(Verdict::Match(t)) }
         }
         "create" => {
             let el = if args[0].starts_with('i') { parse_arr_raw(args[0]).1 } else { parse_i64_list(args[0]) }; let sh = parse_usize_list(args[1]); let nd: Option<usize> = parse_opt(args[2]);
@@ -285,10 +546,11 @@ fn exec(op: &str, args: &[&str], expected: &str) -> Option<Verdict> {
 /// non-trivial: at least two elements and at least one step that changes the shape
 fn nontrivial(op: &str, args: &[&str]) -> bool {
     if op == "create" { return args[2] != "none"; }
+    if op == "audit" { return false; }
     parse_arr_raw(args[0]).1.len() >= 2 && args[1] != "-"
 }
 
 fn main() {
     harness_main(Spec { prop: "C07", gen, exec, nontrivial, hang_secs: 20,
-        rule: "every shape rank<=4 len<=3 (+ 19 shapes with zero-length axes incl. [0,0],[0,3,0],[0,1,0,2]; unit-rich, rank 5): reshape to EVERY ordered factorization of the count into <=4 (5) axes and back (empty arrays: to every kind of empty / non-empty target), non-fitting counts, resize smaller/larger/empty, cycle_take, atleast 0..4, expand_dims at every single position and every ordered pair in -(nd+2)..nd+2, squeeze none / every axis +- / every pair, same step twice, expand-then-squeeze in both spellings, errors passed along a chain; seeded random chains (<=8 steps) that end in the original shape; create with ndmin 0..5. Sizes: big_shapes() + lengths around 256/1024/4096 (ravel, sampled factorizations and back, atleast, expand/squeeze at every position, random chains, create); resize from 28 (thorough ~90) source lengths (dividing and not dividing 256/1024/4096) to targets just above 256/512/1024/2048/4096 of rank 1-3, cycle_take up to 5000, shrinking from big sources. EVERY chain runs through the Result receiver (compared with the model) and through the plain-receiver twin of every step (compared after every step), then on the u8, i8, u64>2^53, f64(-0.0), f32(-0.0), f64 special values (bit-wise), bool, String, char images on both receivers. Tag arrays. non-trivial = >=2 elements and a non-empty chain" });
+        rule: "every shape rank<=4 len<=3 (+ 19 shapes with zero-length axes incl. [0,0],[0,3,0],[0,1,0,2]; unit-rich, rank 5): reshape to EVERY ordered factorization of the count into <=4 (5) axes and back (empty arrays: to every kind of empty / non-empty target), non-fitting counts, resize smaller/larger/empty, cycle_take, atleast 0..4, expand_dims at every single position and every ordered pair in -(nd+2)..nd+2, squeeze none / every axis +- / every pair, same step twice, expand-then-squeeze in both spellings, errors passed along a chain; seeded random chains (<=8 steps) that end in the original shape; create with ndmin 0..5. Sizes: big_shapes() + lengths around 256/1024/4096 (ravel, sampled factorizations and back, atleast, expand/squeeze at every position, random chains, create); resize from 28 (thorough ~90) source lengths (dividing and not dividing 256/1024/4096) to targets just above 256/512/1024/2048/4096 of rank 1-3, cycle_take up to 5000, shrinking from big sources. EVERY chain runs through the Result receiver (compared with the model) and through the plain-receiver twin of every step (compared after every step), then on the u8, i8, u64>2^53, f64(-0.0), f32(-0.0), f64 special values (bit-wise), bool, String, char images on both receivers. Tag arrays. PART 2: expand_dims with 3..5 axes (every 3-subset of the result positions in every order, sampled 4/5-subsets, mixed spellings) alone and followed by the squeeze of those positions (unsorted, mixed spellings); squeeze lists of 3..5 axes; create with ndmin 0..9,12,16 on ranks 0..6; ranks 6..8; every length 1..300 (reshape, resize, cycle_take, expand/squeeze); huge: resize from 14 small source lengths to targets of 20 000..140 000 elements (above and at 65 536) and reshape / ravel / expand / squeeze of huge_shapes() through the model; resize / cycle_take FROM sources of 4 100..140 000 elements (`hchain`) against the harness-native reference out[i] = in[i mod len], which is validated against the model on every smaller resize / cycle_take / reshape / ravel chain of the run (`audit` demands >= 1000 validations); hidden state: `aba` = two chains on a fresh thread A B A, then on another fresh thread B A B, over shape pairs colliding under weak polynomial hashes (multipliers 31,33,37,131,257), equal counts, and a refused call followed by a valid one; for a third of the chain lines the previous line is re-executed and must repeat its answer. non-trivial = >=2 elements and a non-empty chain" });
 }
